@@ -16,6 +16,7 @@ pub fn dispatch(cmd: &str, c: &Value) -> Value {
         "open_prefix" => open_prefix(c),
         "archive_fault" => archive_fault(c),
         "fasta_parse" => fasta_parse(c),
+        "reader_history" => reader_history(c),
         "lz_estimate" => lz_estimate(c),
         "push_priority" => push_priority(c),
         "queue_seq" => queue_seq(c),
@@ -636,4 +637,57 @@ pub fn push_priority(c: &Value) -> Value {
     let r = comp.finalize();
     let _ = std::fs::remove_file(&path);
     json!({ "ok": r.is_ok() })
+}
+
+// ---------------------------------------------------------------- C08 reader history
+pub fn reader_history(c: &Value) -> Value {
+    use ragc_common::{Archive, CollectionV3};
+    use ragc_core::{Decompressor, DecompressorConfig};
+    let path = tmp_path("c08");
+    let names = ["s0", "s1", "s2"];
+    {
+        let mut coll = CollectionV3::new();
+        coll.set_config(1000, 3, None);
+        let mut ar = Archive::new_writer(); ar.open(&path).unwrap();
+        let pid = ar.register_stream("params");
+        let mut p = vec![]; for v in [3u32, 20, 50, 1000] { p.extend_from_slice(&v.to_le_bytes()); }
+        ar.add_part_buffered(pid, p, 0);
+        coll.prepare_for_compression(&mut ar).unwrap();
+        for (i, n) in names.iter().enumerate() {
+            let cn = format!("c{}", i);
+            coll.register_sample_contig(n, &cn).unwrap();
+            coll.add_segment_placed(n, &cn, 0, 16 + i as u32, 0, false, c["lens"][i].as_u64().unwrap() as u32).unwrap();
+        }
+        coll.store_batch_sample_names(&mut ar).unwrap();
+        let mut pos = 0usize;
+        for b in c["batches"].as_array().unwrap() { let n = b.as_u64().unwrap() as usize; coll.store_contig_batch(&mut ar, pos, pos + n).unwrap(); pos += n; }
+        ar.flush_buffers().unwrap(); ar.close().unwrap();
+    }
+    // metadata-only queries (segment payloads are not in this archive): compare with a fresh handle after every step
+    let q = |d: &mut Decompressor, op: &str, s: &str| -> String {
+        let cn = match s { "s0" => "c0", "s2" => "c2", _ => "nope" };
+        match op {
+            "list_samples" => format!("{:?}", d.list_samples()),
+            "list_contigs" => format!("{:?}", d.list_contigs(s).map_err(|_| ())),
+            "get_contig_length" => format!("{:?}", d.get_contig_length(s, cn).map_err(|_| ())),
+            "get_contig_segments_desc" => format!("{:?}", d.get_contig_segments_desc(s, cn).map_err(|_| ())),
+            "get_all_segments" => format!("{:?}", d.get_all_segments().map_err(|_| ())),
+            "get_group_statistics" => format!("{:?}", d.get_group_statistics().map_err(|_| ())),
+            "get_contig" => format!("{:?}", d.get_contig(s, cn).is_err()),
+            "get_sample" => format!("{:?}", d.get_sample(s).is_err()),
+            _ => String::new(),
+        }
+    };
+    let p = path.to_str().unwrap().to_string();
+    let mut h = Decompressor::open(&p, DecompressorConfig { verbosity: 0 }).unwrap();
+    let mut ok = true; let mut why = String::new();
+    for step in c["history"].as_array().unwrap() {
+        let op = step[0].as_str().unwrap(); let s = step[1].as_str().unwrap();
+        let got = q(&mut h, op, s);
+        let mut f = Decompressor::open(&p, DecompressorConfig { verbosity: 0 }).unwrap();
+        let fresh = q(&mut f, op, s);
+        if got != fresh { ok = false; why = format!("{}({}) -> {} vs fresh {}", op, s, got, fresh); break; }
+    }
+    let _ = std::fs::remove_file(&path);
+    json!({ "ok": ok, "why": why })
 }
